@@ -15,7 +15,7 @@ LEVEL = "exploration"
 TECHNIQUE = "bounded-exhaustive enumeration of all DAG pipelines up to N functions x listing orders x outputs x argument cuts, against a reference evaluator"
 RULE = ("G-DAG: every pipeline of N functions over roots {x,y} (each function takes 0..2 of roots/earlier outputs, 1 or 2 outputs; "
         "x/y-symmetric duplicates merged) x one decoration at a time (signature default, PipeFunc default, bound root, bound upstream, "
-        "renamed parameter, renamed output, shared default) x every listing order x every requested output (names and tuples) x every "
+        "renamed parameter, renamed output, shared default; N<=2 also rename COMBINATIONS whose original names collide with new names: a swap p<->q or chain p<-q<-q_orig of two parameters, alone / + bound q / + signature or PipeFunc default on p, and a parameter whose original name is the function's new output name) x every listing order x every requested output (names and tuples) x every "
         "combination in arg_combinations (and every omission of defaulted roots) x entry points {pipeline(), run, run(full_output), "
         "func(), call_with_root_args} + surplus-keyword variants. non-trivial = distinct (pipeline, output, cut) with >= 2 functions on the dependency path")
 ASSUMPTIONS = ["reference evaluator in vmc/gen_dag.py (bound > keyword > upstream > default, memo per call)",
@@ -245,6 +245,11 @@ def specs_for(stage):
     elif stage == "N2-decorated":
         for s in gen_dag.base_specs(2):
             yield from gen_dag.decorations(s)
+    elif stage == "N2-rename-combos":
+        # two features combined around renames: original names colliding with new names (+ bound, + defaults)
+        for n in (1, 2):
+            for s in gen_dag.base_specs(n):
+                yield from gen_dag.combo_decorations(s)
     elif stage == "N3":
         yield from gen_dag.base_specs(3)
     elif stage == "N3-shared-none":
@@ -263,9 +268,9 @@ def specs_for(stage):
         yield from gen_dag.base_specs(4, max_params=2, nouts=(1,), min_params=1)
 
 
-STAGES = {"quick": ["N1", "N2", "N2-three-output-producer", "N2-decorated", "N3-shared-none", "N3"],
-          "thorough": ["N1", "N2", "N2-three-output-producer", "N2-decorated", "N3-shared-none", "N3", "N3-decorated", "N4-single-output"]}
-CHUNK = {"N3-shared-none": 20, "N2-three-output-producer": 8, "N1": 8, "N2": 16, "N2-decorated": 40, "N3": 40, "N3-decorated": 200, "N4-single-output": 30}
+STAGES = {"quick": ["N1", "N2", "N2-three-output-producer", "N2-decorated", "N2-rename-combos", "N3-shared-none", "N3"],
+          "thorough": ["N1", "N2", "N2-three-output-producer", "N2-decorated", "N2-rename-combos", "N3-shared-none", "N3", "N3-decorated", "N4-single-output"]}
+CHUNK = {"N2-rename-combos": 60, "N3-shared-none": 20, "N2-three-output-producer": 8, "N1": 8, "N2": 16, "N2-decorated": 40, "N3": 40, "N3-decorated": 200, "N4-single-output": 30}
 
 
 def plan(tier, seed):
